@@ -36,7 +36,6 @@
 struct RefFr {
     bool reject, chunked, plain;
     bool crInFraming;   // a bare CR (not the CR of the line's CRLF) inside a Content-Length / Transfer-Encoding field line
-    bool emptyClList;   // no Transfer-Encoding, and the Content-Length field(s) hold nothing but empty list elements ("Content-Length: ,")
     uint64_t len;
 };
 
@@ -66,7 +65,7 @@ static bool refDecimal(const uint8_t *w, unsigned a, const unsigned b, uint64_t 
 
 static RefFr refFraming(const uint8_t *in, const unsigned n)
 {
-    RefFr r = {false, false, true, false, false, 0};
+    RefFr r = {false, false, true, false, 0};
     static uint8_t w[MAXB], wasCr[MAXB];
     unsigned m = 0;
     // normalisation: NUL -> SP, bare CR -> SP, obs-fold ([CR] LF 1*(SP/HT)) -> SP
@@ -107,6 +106,7 @@ static RefFr refFraming(const uint8_t *in, const unsigned n)
                 bool list = false;
                 for (unsigned i = vs; i < ve; ++i) if (w[i] == ',') list = true;
                 if (list) r.plain = false;
+                unsigned elements = 0;
                 for (unsigned s = vs;;) {
                     unsigned e = s;
                     while (e < ve && w[e] != ',') ++e;
@@ -114,6 +114,7 @@ static RefFr refFraming(const uint8_t *in, const unsigned n)
                     while (a < b && refWsp(w[a])) ++a;
                     while (a < b && refWsp(w[b - 1])) --b;
                     if (a < b || !list) {                   // empty list elements are ignored (RFC 9110 5.6.1.2)
+                        ++elements;
                         if (isCl) {
                             uint64_t v;
                             if (!refDecimal(w, a, b, v)) clOk = false;
@@ -127,6 +128,8 @@ static RefFr refFraming(const uint8_t *in, const unsigned n)
                     if (e >= ve) break;
                     s = e + 1;
                 }
+                // a Content-Length field made of list separators only ("Content-Length: ,") states no length: malformed
+                if (isCl && !elements) clOk = false;
             }
         }
         ls = le + 1;
@@ -138,7 +141,6 @@ static RefFr refFraming(const uint8_t *in, const unsigned n)
     } else if (nCl) {
         if (clOk && haveCl) r.len = clValue;
         else r.reject = true;
-        r.emptyClList = clOk && !haveCl;
     }
     return r;
 }
@@ -168,7 +170,7 @@ static uint64_t outDecimal(const HttpHeaderEntry *e, bool &ok)
     return v;
 }
 
-static void check(const char *headers, const int relaxed, const bool onlyCandidateClass = false)
+static void check(const char *headers, const int relaxed)
 {
     fwdConfig(relaxed);
     Config.maxRequestHeaderSize = 65536;
@@ -181,12 +183,9 @@ static void check(const char *headers, const int relaxed, const bool onlyCandida
     n = put(msg, n, "GET /next HTTP/1.1\r\n\r\n");
 
     const RefFr ref = refFraming(msg + hs, he - hs);
-    // KNOWN-FINDING candidate: with relaxed_header_parser on, a Content-Length field whose value consists only of empty list elements
-    // ("Content-Length: ," / ",," / ", ,") is not an error: ContentLengthInterpreter::checkList() finds no item, sets needsSanitizing
-    // without sawBad, HttpHeader::parse() then deletes the field, and the request is accepted and forwarded as one WITHOUT a body
-    // (what follows the header is taken as the next pipelined request). RFC 9110 8.6 / RFC 9112 6.3 #4: a Content-Length without a
-    // valid decimal is invalid framing, an unrecoverable error. Found by entry c03_value (relaxed=1, value ",,").
-    vf_assume((relaxed != 0 && ref.emptyClList) == onlyCandidateClass);
+    // (A Content-Length of list separators only used to be dropped silently in relaxed mode, turning the request into one without a
+    // body; repaired in /repo by 'fix: a Content-Length consisting of list separators only was silently dropped'. No exclusion:
+    // the class is examined by c03_value, families 10 and 11.)
 
     // client side
     Http1::RequestParser hp;
@@ -280,18 +279,18 @@ static const char *const Families[] = {
     "Transfer-Encoding: chunked\r\nTransfer-Encoding:" B B T("", B) "\r\n",
     // 10 Content-Length value: anything
     "Content-Length:" B B T("", B) "\r\n",
+    // 11 a separator-only Content-Length field (the repaired class: ",", ",,", " ,") next to a valid one
+    "Content-Length: 5\r\nContent-Length:" B B "\r\n",
 };
 static void family(const unsigned first, const unsigned count)
 {
     const int relaxed = relaxedSetting();
     check(Families[first + (unsigned)vf_concretize(vf_range(0, count - 1, "family"))], relaxed);
 }
-// not in a tier: examines ONLY the class excluded above (expected to report a violation; for triage of the KNOWN-FINDING candidate)
-extern "C" void c03_candidate_empty_cl_list(void) { check(Families[10], 1, true); }
 extern "C" void c03_length(void) { family(0, 1); }
 extern "C" void c03_te(void) { family(1, 2); }
 extern "C" void c03_fold(void) { family(3, 2); }
 extern "C" void c03_eol(void) { family(5, 1); }
 extern "C" void c03_names(void) { family(6, 3); }
 extern "C" void c03_te_dup(void) { family(9, 1); }
-extern "C" void c03_value(void) { family(10, 1); }
+extern "C" void c03_value(void) { family(10, 2); }
